@@ -37,7 +37,7 @@ theorem rawOK_esc2 {d : Char} (hd : d ≠ '\n') (b : List Char) : rawOK ('\\' ::
   conv => lhs; unfold rawOK
   simp [hd]
 
-theorem hexDigitChar_plain : ∀ k, k < 16 → plainC (hexDigitChar k) = true := by decide
+theorem hexDigitChar_plain : ∀ k, k < 16 → plainC (hexDigitChar k) = true := by decide +kernel
 
 theorem hexDigits_plain : ∀ f n, ∀ x ∈ hexDigits f n, plainC x = true
   | 0, _, x, hx => by simp [hexDigits] at hx
@@ -48,35 +48,35 @@ theorem hexDigits_plain : ∀ f n, ∀ x ∈ hexDigits f n, plainC x = true
     · simp only [List.mem_append, List.mem_singleton] at hx
       rcases hx with hx | hx
       · exact hexDigits_plain f _ x hx
-      · subst hx; exact hexDigitChar_plain _ (Nat.mod_lt _ (by decide))
+      · subst hx; exact hexDigitChar_plain _ (Nat.mod_lt _ (by decide +kernel))
 
 /-- one escaped character is transparent for the `STRINGLIT` body test, whatever the table says -/
 theorem rawOK_escapeChar (esc : Bool) (c : Char) (b : List Char) : rawOK (escapeChar esc c ++ b) = rawOK b := by
   unfold escapeChar
   split
-  · exact rawOK_esc2 (by decide) b
+  · exact rawOK_esc2 (by decide +kernel) b
   split
-  · exact rawOK_esc2 (by decide) b
+  · exact rawOK_esc2 (by decide +kernel) b
   split
-  · exact rawOK_esc2 (by decide) b
+  · exact rawOK_esc2 (by decide +kernel) b
   split
-  · exact rawOK_esc2 (by decide) b
+  · exact rawOK_esc2 (by decide +kernel) b
   split
-  · exact rawOK_esc2 (by decide) b
+  · exact rawOK_esc2 (by decide +kernel) b
   split
-  · exact rawOK_esc2 (by decide) b
+  · exact rawOK_esc2 (by decide +kernel) b
   split
-  · exact rawOK_esc2 (by decide) b
+  · exact rawOK_esc2 (by decide +kernel) b
   split
   · show rawOK ('\\' :: 'u' :: ('{' :: (hexDigits 6 c.toNat ++ ['}']) ++ b)) = rawOK b
-    rw [rawOK_esc2 (by decide)]
+    rw [rawOK_esc2 (by decide +kernel)]
     rw [rawOK_plain_append]
     intro x hx
     simp only [List.mem_cons, List.mem_append, List.not_mem_nil, or_false] at hx
     rcases hx with hx | hx | hx
-    · subst hx; decide
+    · subst hx; decide +kernel
     · exact hexDigits_plain _ _ x hx
-    · subst hx; decide
+    · subst hx; decide +kernel
   · rename_i h1 h2 _ _
     exact rawOK_plain_cons (by simp [plainC, h1, h2]) b
 
@@ -92,11 +92,11 @@ theorem rawOK_escapeStr (me : Char → Bool) (s : List Char) : rawOK (escapeStr 
 theorem rawOK_escapePattern (me : Char → Bool) : ∀ p : Pattern, rawOK (escapePattern me p) = true
   | [] => rfl
   | .star :: ps => by
-    rw [escapePattern, rawOK_plain_cons (by decide)]; exact rawOK_escapePattern me ps
+    rw [escapePattern, rawOK_plain_cons (by decide +kernel)]; exact rawOK_escapePattern me ps
   | .char c :: ps => by
     rw [escapePattern]
     split
-    · exact (rawOK_esc2 (by decide) _).trans (rawOK_escapePattern me ps)
+    · exact (rawOK_esc2 (by decide +kernel) _).trans (rawOK_escapePattern me ps)
     · rw [rawOK_escapeChar]; exact rawOK_escapePattern me ps
 
 /-! ### the expression printer only emits lexer-producible tokens -/
@@ -145,29 +145,29 @@ theorem allOK_nameTokens {ty : String} (h : typeNameOk ty = true) : allOK (nameT
 theorem extName_ident {fn : String} (h : isExtFunction fn = true ∨ isExtMethod fn = true) : isIdentChars fn.toList = true := by
   simp only [isExtFunction, extFunctions, isExtMethod, extMethods, List.contains_cons, List.contains_nil, Bool.or_false,
     Bool.or_eq_true, beq_iff_eq] at h
-  rcases h with (h | h | h | h | h) | (h | h | h | h | h | h | h | h | h | h | h | h | h | h | h | h | h | h) <;> subst h <;> decide
+  rcases h with (h | h | h | h | h) | (h | h | h | h | h | h | h | h | h | h | h | h | h | h | h | h | h | h) <;> subst h <;> decide +kernel
 
-theorem tokOK_varName (v : Var) : TokOK (.ident (varName v)) = true := by cases v <;> decide
-theorem tokOK_slotName (s : SlotId) : TokOK (.slot (slotName s)) = true := by cases s <;> decide
-theorem tokOK_infixTok (op : BinaryOp) : TokOK (infixTok op) = true := by cases op <;> decide
+theorem tokOK_varName (v : Var) : TokOK (.ident (varName v)) = true := by cases v <;> decide +kernel
+theorem tokOK_slotName (s : SlotId) : TokOK (.slot (slotName s)) = true := by cases s <;> decide +kernel
+theorem tokOK_infixTok (op : BinaryOp) : TokOK (infixTok op) = true := by cases op <;> decide +kernel
 theorem tokOK_methodName (op : BinaryOp) (h : op = .contains ∨ op = .containsAll ∨ op = .containsAny ∨ op = .getTag ∨ op = .hasTag) :
     TokOK (.ident (methodName op)) = true := by
-  rcases h with h | h | h | h | h <;> subst h <;> decide
-theorem tokOK_boolName (b : Bool) : TokOK (.ident (if b then "true" else "false")) = true := by cases b <;> decide
+  rcases h with h | h | h | h | h <;> subst h <;> decide +kernel
+theorem tokOK_boolName (b : Bool) : TokOK (.ident (if b then "true" else "false")) = true := by cases b <;> decide +kernel
 
-theorem tokOK_kw_if : TokOK (.ident "if") = true := by decide
-theorem tokOK_kw_then : TokOK (.ident "then") = true := by decide
-theorem tokOK_kw_else : TokOK (.ident "else") = true := by decide
-theorem tokOK_kw_in : TokOK (.ident "in") = true := by decide
-theorem tokOK_kw_is : TokOK (.ident "is") = true := by decide
-theorem tokOK_kw_like : TokOK (.ident "like") = true := by decide
-theorem tokOK_kw_has : TokOK (.ident "has") = true := by decide
-theorem tokOK_kw_isEmpty : TokOK (.ident "isEmpty") = true := by decide
-theorem tokOK_kw_unknown : TokOK (.ident "unknown") = true := by decide
-theorem tokOK_kw_when : TokOK (.ident "when") = true := by decide
-theorem tokOK_kw_action : TokOK (.ident "action") = true := by decide
-theorem tokOK_kw_principal : TokOK (.ident "principal") = true := by decide
-theorem tokOK_kw_resource : TokOK (.ident "resource") = true := by decide
+theorem tokOK_kw_if : TokOK (.ident "if") = true := by decide +kernel
+theorem tokOK_kw_then : TokOK (.ident "then") = true := by decide +kernel
+theorem tokOK_kw_else : TokOK (.ident "else") = true := by decide +kernel
+theorem tokOK_kw_in : TokOK (.ident "in") = true := by decide +kernel
+theorem tokOK_kw_is : TokOK (.ident "is") = true := by decide +kernel
+theorem tokOK_kw_like : TokOK (.ident "like") = true := by decide +kernel
+theorem tokOK_kw_has : TokOK (.ident "has") = true := by decide +kernel
+theorem tokOK_kw_isEmpty : TokOK (.ident "isEmpty") = true := by decide +kernel
+theorem tokOK_kw_unknown : TokOK (.ident "unknown") = true := by decide +kernel
+theorem tokOK_kw_when : TokOK (.ident "when") = true := by decide +kernel
+theorem tokOK_kw_action : TokOK (.ident "action") = true := by decide +kernel
+theorem tokOK_kw_principal : TokOK (.ident "principal") = true := by decide +kernel
+theorem tokOK_kw_resource : TokOK (.ident "resource") = true := by decide +kernel
 
 /-- **every token of the expression printer is lexer-producible** on the parser image (`inFrag3`): bare identifiers are
 keywords, variable / method / extension names, valid type-name components or attribute names that passed
@@ -257,7 +257,7 @@ theorem printE_allOK (me : Char → Bool) : ∀ k e, sz3 e ≤ k → inFrag3 e =
       have ihb := ih b (by omega) hf.2
       cases op <;>
         simp only [printE, allOK_cons, allOK_append, allOK_paren, allOK_nil, iha, ihb, tokOK_infixTok, Bool.and_true, Bool.true_and] <;>
-        decide
+        decide +kernel
     case call fn args =>
       simp only [inFrag3, Bool.and_eq_true, Bool.or_eq_true] at hf
       simp only [sz3] at hk
@@ -378,7 +378,7 @@ theorem printCond_allOK (me : Char → Bool) {c : Option Expr} (h : condOKW inFr
       Bool.true_and, Bool.and_true]
     rfl
 
-theorem tokOK_effectName (e : Effect) : TokOK (.ident (effectName e)) = true := by cases e <;> decide
+theorem tokOK_effectName (e : Effect) : TokOK (.ident (effectName e)) = true := by cases e <;> decide +kernel
 
 /-- **every token of the policy printer is lexer-producible** on the policy image with identifier-shaped annotation keys -/
 theorem printPolicy_allOK (me : Char → Bool) (b : TemplateBody) (h : policyOKW typeNameOk inFrag3 b = true)
